@@ -1,10 +1,10 @@
-\* intended design (a removal reaches the strategy, no duplicates, a non-empty cache always gets a victim): everything holds
+\* intended design, four keys (thorough tier)
 SPECIFICATION Spec
 CONSTANTS
   Keys = {1, 2, 3, 4}
   Kinds = {"LRU", "LFU", "FIFO", "Adaptive"}
   MaxFreq = 2
-  MaxLen = 4
+  MaxLen = 5
   AsImplemented_NoRemoveHook = FALSE
   AsImplemented_FifoDuplicates = FALSE
   AsImplemented_UnseenNone = FALSE
